@@ -195,6 +195,18 @@ def validate_registry_header(
                 raise ValueError(f'"{key}" in header {error}')
 
 
+def check_disjoint_headers(*parts: Any) -> None:
+    # RFC 7515 section 7.2.1 and RFC 7516 section 7.2.1: the Header Parameter
+    # names in the different locations MUST be disjoint
+    seen: set[str] = set()
+    for part in parts:
+        if isinstance(part, dict):
+            duplicated = seen.intersection(part)
+            if duplicated:
+                raise ValueError(f"Duplicated {sorted(duplicated)} in header")
+            seen.update(part)
+
+
 def check_crit_header(header: Header) -> None:
     # check crit header
     if "crit" in header:
